@@ -95,6 +95,11 @@ add("C12", "Hypothesis-drawn (intermediate, index tuple, expansion depth, model)
     "RE residuals vs. the derived residual on off-shell models, t2eri_*/t2sq consistency; declared tensor symmetry and vanishing of all non-allowed spin blocks are checked on the evaluated definitions.",
     "Trusted: rspt.py, fock.py, spin-structured model of C15. Composite integral-amplitude intermediates have no independent specification offline (consistency + declared symmetry only).")
 
+add("C11", "Hypothesis-generated real-basis expressions with registered intermediate tensors and generated expand/reduce/factor requests; differential value oracle on a canonical-HF F_p model in which every intermediate tensor takes the value of its registered definition",
+    "Generated-input search: expand_intermediates (fully/once), reduce_expr and factor_intermediates (generated subsets/orders of types and names, max_order) applied to expanded or reduced forms; the value on the model must be unchanged, "
+    "hence factor(expand(x)) == x in value independent of the requested subset/order.",
+    "Trusted: rspt.py amplitudes/densities (validated against the definitions by C12), definitions of composite intermediates evaluated once per model. Few cases per run (factorisation takes seconds per case).")
+
 NOT_YET = "check not built yet in this round (planned, see DESIGN.md)"
 
 def main():
